@@ -1,6 +1,10 @@
 import XModel.RefsTable
 /-!
-# Tie A, the full lift: every conjunct of `Full.ValidOps` is used
+# Tie A, the lift over all OPERATORS: every conjunct of `Full.ValidOps` is used
+
+("full" in the names `c04_lift_full` / `C04_eval_homomorphism_full` means: all operator dunders that
+`ValidOps` talks about, as opposed to the 18-dunder fragment of `XModel/Tables.lean`.  It does NOT mean
+every node kind of the library: see "Node kinds OUTSIDE this lift" below.)
 
 `XModel/Tables.lean` lifts validity of the *binary* table (18 dunders) to all terms.  This file does the
 same for everything `Full.ValidOps` checks:
@@ -11,7 +15,41 @@ same for everything `Full.ValidOps` checks:
 * the in-place operators of `inplaceSpec`, value case (`old ⊕ v`, computed at once) and expression case
   (`old-expression ⊕ v`, a node),
 * the `propagate` rows (a class that swallows an exception other than the documented
-  `ZeroDivisionError` returns NaN instead of raising: the shape of a widened `except` clause).
+  `ZeroDivisionError` returns NaN instead of raising: the shape of a widened `except` clause).  The
+  node semantics is FAIL-CLOSED on classes: a class for which the table does not have a propagating row
+  for every exception of `probedExcs` is treated like a class that swallows (nothing is known about it,
+  `classRes`); `ValidOps` is closed over the class universe `propClasses` and asks that every class of
+  the table's operator rows is in it, so for a valid table every node that `build2` produces is of a
+  probed class (`build_eval2_universe`).  `unprobedTable` below is a table with one arbitrary propagate
+  row: it fails `ValidOps`, and the lift fails for it.  Only the classes of `propClasses` (subclasses of
+  `BinOpExpr` / `UnaryOpExpr`) pass through `classRes`; `Node2.call` (`BuiltinRef`) and `Node2.imm` (no
+  node at all) have no `except` clause in the source and are not probed: their `evalNode2` is
+  hard-wired and the `propagate` conjunct is not used for them.  What is concluded for exception classes
+  other than the five probed ones is an extrapolation (a row is per exception class; `swallows` is false
+  for an exception without a row, for a probed class).
+
+## Node kinds OUTSIDE this lift
+
+`Term2` has the constructors `val | op | un | call | iopVal | iopExpr`, where `call` is ONLY the six
+builtin dunders of `builtinSpec` (`abs`, `round`, `divmod`, `math.trunc`, `math.floor`, `math.ceil`, a
+`BuiltinRef` with positional parameters).  The extracted table has NO rows that describe how the
+following node kinds are built or in which order their operands are evaluated (the translator probes
+them for `deps` and `reduce` only), so they are not terms of `Term2` and `build_eval2` says nothing
+about them:
+
+* general calls `f(a, b, k=c)` on a ref: `CallRef(func, args, kwargs)` (`__call__`), keyword arguments
+  included; in the source `_get_value` evaluates `func`, then `args` left to right, then the `kwargs`
+  values, then applies: not extracted, not modelled;
+* subscripts `r[k]`: `ItemRef(owner, key)` (`__getitem__`), with a literal or a computed key (a key that
+  is itself a ref / expression); `_get_value` evaluates owner, then key, then indexes;
+* attribute access `r.name`: `AttrRef(owner, key)` (`__getattr__`), likewise;
+* the comparison nodes `EqExpr` / `NeExpr` (built by `_eq` / `_neq`, not by `==` / `!=`): the classes are
+  in the universe and probed for `propagate`, but no dunder of `pySpecFull` builds them;
+* `LiteralExpr`, and the container references `Ref` / `ObjectAttrRef` themselves: leaves (`Term2.val`);
+* `builtinSpec` functions called with keyword parameters (`round(x, ndigits=2)`).
+
+For these kinds the project has: the `deps` / `reduce` rows (C05 / C12, `RefsTable.classSlots`), and the
+differential tests of the harness; no evaluation theorem.
 
 `build_eval2`: for a table with `ValidOps = true` and `Coherent = true`, every well-formed `Term2`
 builds, and the node evaluates to what Python computes directly.  `Coherent` is a second decidable check
@@ -23,7 +61,9 @@ something else).
 specification lists.
 
 `value_depends_only_on_reported`: C05's semantic statement for the recursive-union model of
-`_get_dependencies` in `XModel/RefsTable.lean`.
+`_get_dependencies` in `XModel/RefsTable.lean`, with the hypothesis `wellSlotted rows n` (rows and tree);
+`value_depends_only_on_reported_universe`: the same for a table with `ValidDeps = true` and a tree with
+`InUniverse n = true` (a property of the tree alone).
 -/
 namespace RefsLift
 open Tables RefsTable
@@ -50,11 +90,14 @@ def swallows (f : Full) (cls exc : String) : Bool :=
   f.propagate.any (fun r => r.cls = cls && r.exc = exc && !r.propagates)
 
 /-- what a node of class `cls` does with the result of its primitive: the guard, and a recorded
-    swallowed exception gives NaN too (a widened `except` clause); everything else is passed on -/
+    swallowed exception gives NaN too (a widened `except` clause).  FAIL-CLOSED on the class: when the
+    table does not say, for every probed exception, that class `cls` let it through
+    (`RefsTable.probedClass`), nothing is known about the class's `except` clause and the model takes
+    the pessimistic reading (NaN, as for a recorded swallowed exception).  Everything else is passed on. -/
 def classRes (f : Full) (ops : PyOps2 V) (cls : String) (g : Bool) : Except String V → Except String V
   | .error e =>
     if g && ops.isZeroDiv e then .ok ops.nan
-    else if swallows f cls (ops.excClass e) then .ok ops.nan else .error e
+    else if swallows f cls (ops.excClass e) || !probedClass f.propagate cls then .ok ops.nan else .error e
   | .ok v => .ok v
 
 /-! ### nodes, as the library builds them -/
@@ -228,12 +271,44 @@ theorem validOps_parts (f : Full) (h : f.ValidOps = true) :
     (∀ p ∈ builtinSpec, builtinOk f p.1 p.2.1 p.2.2.1 p.2.2.2 = true) ∧
     (∀ p ∈ inplaceSpec, inplaceOk f p.1 p.2 = true) ∧
     (∀ r ∈ f.propagate, r.propagates = true) ∧ f.propagate ≠ [] := by
-  unfold Full.ValidOps at h
+  unfold Full.ValidOps Full.ValidOpRows Full.ValidPropagate at h
   simp only [Bool.and_eq_true, List.all_eq_true] at h
-  obtain ⟨⟨⟨⟨⟨h1, h2⟩, h3⟩, h4⟩, h5⟩, h6⟩ := h
+  obtain ⟨⟨⟨⟨h1, h2⟩, h3⟩, h4⟩, ⟨⟨⟨h5, h6⟩, _⟩, _⟩⟩ := h
   refine ⟨h1, h2, h3, h4, h5, ?_⟩
   intro he
-  simp [he] at h6
+  have := h6 "AddExpr" (by decide)
+  simp [probedClass, probedExcs, he] at this
+
+/-- the `propagate` part of `ValidOps`, closed over the universe: every class of `propClasses` is probed
+    for every exception of `probedExcs`, and the classes of the table's operator rows are in the universe -/
+theorem validPropagate_parts (f : Full) (h : f.ValidOps = true) :
+    (∀ c ∈ propClasses, probedClass f.propagate c = true) ∧
+    (∀ c ∈ f.bin.classes, c.cls ∈ binClasses) ∧ (∀ r ∈ f.unary, r.cls ∈ unaryClasses) := by
+  unfold Full.ValidOps Full.ValidPropagate at h
+  simp only [Bool.and_eq_true, List.all_eq_true] at h
+  obtain ⟨_, ⟨⟨⟨_, h6⟩, h7⟩, h8⟩⟩ := h
+  exact ⟨h6, fun c hc => by simpa using h7 c hc, fun r hr => by simpa using h8 r hr⟩
+
+theorem probed_of_binClass (f : Full) (h : f.ValidOps = true) (c : ClassRow) (hc : c ∈ f.bin.classes) :
+    probedClass f.propagate c.cls = true :=
+  (validPropagate_parts f h).1 c.cls (by
+    unfold propClasses; exact List.mem_append_left _ ((validPropagate_parts f h).2.1 c hc))
+
+theorem probed_of_unary (f : Full) (h : f.ValidOps = true) (r : UnaryRow) (hr : r ∈ f.unary) :
+    probedClass f.propagate r.cls = true :=
+  (validPropagate_parts f h).1 r.cls (by
+    unfold propClasses; exact List.mem_append_right _ ((validPropagate_parts f h).2.2 r hr))
+
+/-- a probing row is a member of the table: the row `(c, e, true)` is in `f.propagate` -/
+theorem probedClass_mem (rows : List PropagateRow) (c e : String) (hp : probedClass rows c = true)
+    (he : e ∈ probedExcs) : (⟨c, e, true⟩ : PropagateRow) ∈ rows := by
+  unfold probedClass at hp
+  have := List.all_eq_true.mp hp e he
+  obtain ⟨r, hr, hq⟩ := List.any_eq_true.mp this
+  simp only [Bool.and_eq_true, decide_eq_true_eq] at hq
+  obtain ⟨⟨h1, h2⟩, h3⟩ := hq
+  have : r = ⟨c, e, true⟩ := by cases r; simp_all
+  exact this ▸ hr
 
 /-- conjunct 1: the row of a binary / reflected dunder -/
 theorem bin_row (f : Full) (hv : f.ValidOps = true) (d : String) (m : Meaning) (h : (d, m) ∈ pySpecFull) :
@@ -299,11 +374,20 @@ theorem no_swallow (f : Full) (hv : f.ValidOps = true) (cls exc : String) : swal
   intro r hr
   simp [hp r hr]
 
-theorem classRes_eq (f : Full) (hv : f.ValidOps = true) (ops : PyOps2 V) (cls : String) (g : Bool)
+/-- for a PROBED class of a valid table, the node does with the result of its primitive exactly what
+    the documented guard does.  The hypothesis on the class is needed: `unprobedTable` below. -/
+theorem classRes_eq (f : Full) (hv : f.ValidOps = true) (ops : PyOps2 V) (cls : String)
+    (hp : probedClass f.propagate cls = true) (g : Bool)
     (res : Except String V) : classRes f ops cls g res = guardNaN ops.toPyOps g res := by
   cases res with
   | ok v => rfl
-  | error e => simp [classRes, guardNaN, no_swallow f hv]
+  | error e => simp [classRes, guardNaN, no_swallow f hv, hp]
+
+/-- the same, with the hypothesis on the class stated without the table: the class is in the universe -/
+theorem classRes_eq_universe (f : Full) (hv : f.ValidOps = true) (ops : PyOps2 V) (cls : String)
+    (hc : cls ∈ propClasses) (g : Bool) (res : Except String V) :
+    classRes f ops cls g res = guardNaN ops.toPyOps g res :=
+  classRes_eq f hv ops cls ((validPropagate_parts f hv).1 cls hc) g res
 
 theorem guardNaN_false (ops : PyOps V) (res : Except String V) : guardNaN ops false res = res := by
   cases res <;> simp [guardNaN]
@@ -369,73 +453,122 @@ theorem bind_congr' {α β : Type} (x : Except String α) (g h : α → Except S
 /-! ### the lift -/
 
 mutual
-/-- C04 (all operators): validity and coherence of the extracted tables lift to every term. -/
-theorem build_eval2 (f : Full) (hv : f.ValidOps = true) (hc : f.Coherent = true) (ops : PyOps2 V) :
-    ∀ t : Term2 V, WF2 t → ∃ node, build2 f t = some node ∧ evalNode2 f ops node = evalDirect2 ops t
-  | .val v, _ => ⟨.val v, by simp [build2], by simp [evalNode2, evalDirect2]⟩
+/-- a property of the NODE alone (no table): every class occurring in it is a class of the universe
+    (`BinOpExpr` nodes of a class of `binClasses`, `UnaryOpExpr` nodes of a class of `unaryClasses`) -/
+def nodeInUniverse : Node2 V → Bool
+  | .val _ => true
+  | .bin cls l r => binClasses.contains cls && nodeInUniverse l && nodeInUniverse r
+  | .un cls arg => unaryClasses.contains cls && nodeInUniverse arg
+  | .call _ _ arg params => nodeInUniverse arg && nodesInUniverse params
+  | .imm _ _ _ => true
+def nodesInUniverse : List (Node2 V) → Bool
+  | [] => true
+  | n :: ns => nodeInUniverse n && nodesInUniverse ns
+end
+
+theorem binClass_of_find (f : Full) (hv : f.ValidOps = true) (cn : String) (c : ClassRow)
+    (hfc : f.bin.findClass cn = some c) :
+    cn ∈ binClasses ∧ probedClass f.propagate cn = true := by
+  have hmem : c ∈ f.bin.classes := List.mem_of_find?_eq_some hfc
+  have hname : c.cls = cn := by simpa using List.find?_some hfc
+  rw [← hname]
+  exact ⟨(validPropagate_parts f hv).2.1 c hmem, probed_of_binClass f hv c hmem⟩
+
+mutual
+/-- C04 (all operators), with the class universe: validity and coherence of the extracted tables lift to
+    every term, and every node built is made of classes of the universe — the classes that `ValidOps`
+    asks to be probed for `propagate`. -/
+theorem build_eval2_universe (f : Full) (hv : f.ValidOps = true) (hc : f.Coherent = true) (ops : PyOps2 V) :
+    ∀ t : Term2 V, WF2 t → ∃ node, build2 f t = some node ∧ evalNode2 f ops node = evalDirect2 ops t ∧
+      nodeInUniverse node = true
+  | .val v, _ => ⟨.val v, by simp [build2], by simp [evalNode2, evalDirect2], rfl⟩
   | .op d m s o, hw => by
     simp only [WF2] at hw
     obtain ⟨hmem, hs, ho, hrefl⟩ := hw
-    obtain ⟨ns, bs, es⟩ := build_eval2 f hv hc ops s hs
-    obtain ⟨no, bo, eo⟩ := build_eval2 f hv hc ops o ho
+    obtain ⟨ns, bs, es, us⟩ := build_eval2_universe f hv hc ops s hs
+    obtain ⟨no, bo, eo, uo⟩ := build_eval2_universe f hv hc ops o ho
     obtain ⟨row, c, hfd, hfc, hprim, hguard, hsw, hside⟩ := bin_row f hv d m hmem
-    refine ⟨sideNode row ns no, by simp [build2, hfd, bs, bo], ?_⟩
-    cases hsd : row.side with
-    | selfLhs =>
-      have hsf : m.selfFirst = true := by simpa [hsd] using hside.symm
-      simp only [sideNode, hsd, evalNode2, hfc, es, eo, evalDirect2, classRes_eq f hv, hprim, hguard, hsw, hsf]
-      simp
-    | selfRhs =>
-      have hsf : m.selfFirst = false := by simpa [hsd] using hside.symm
-      obtain ⟨v, rfl⟩ := isVal2_val o (hrefl hsf)
-      have : no = .val v := by simpa [build2] using bo.symm
-      subst this
-      simp only [sideNode, hsd, evalNode2, hfc, es, evalDirect2, classRes_eq f hv, hprim, hguard, hsw, hsf]
-      cases evalDirect2 ops s <;> simp [bind, Except.bind]
+    obtain ⟨hbc, hpc⟩ := binClass_of_find f hv row.cls c hfc
+    refine ⟨sideNode row ns no, by simp [build2, hfd, bs, bo], ?_, ?_⟩
+    · cases hsd : row.side with
+      | selfLhs =>
+        have hsf : m.selfFirst = true := by simpa [hsd] using hside.symm
+        simp only [sideNode, hsd, evalNode2, hfc, es, eo, evalDirect2, classRes_eq f hv ops row.cls hpc, hprim, hguard, hsw, hsf]
+        simp
+      | selfRhs =>
+        have hsf : m.selfFirst = false := by simpa [hsd] using hside.symm
+        obtain ⟨v, rfl⟩ := isVal2_val o (hrefl hsf)
+        have : no = .val v := by simpa [build2] using bo.symm
+        subst this
+        simp only [sideNode, hsd, evalNode2, hfc, es, evalDirect2, classRes_eq f hv ops row.cls hpc, hprim, hguard, hsw, hsf]
+        cases evalDirect2 ops s <;> simp [bind, Except.bind]
+    · cases hsd : row.side <;> simp [sideNode, hsd, nodeInUniverse, hbc, us, uo]
   | .un d p s, hw => by
     simp only [WF2] at hw
     obtain ⟨hmem, hs⟩ := hw
-    obtain ⟨ns, bs, es⟩ := build_eval2 f hv hc ops s hs
+    obtain ⟨ns, bs, es, us⟩ := build_eval2_universe f hv hc ops s hs
     obtain ⟨r, r', hf, hf', hp⟩ := un_class f hv hc d p hmem
-    refine ⟨.un r.cls ns, by simp [build2, hf, bs], ?_⟩
-    simp only [evalNode2, hf', es, evalDirect2, classRes_eq f hv, guardNaN_false, hp]
+    have hr : r ∈ f.unary := List.mem_of_find?_eq_some hf
+    refine ⟨.un r.cls ns, by simp [build2, hf, bs], ?_, ?_⟩
+    · simp only [evalNode2, hf', es, evalDirect2, classRes_eq f hv ops r.cls (probed_of_unary f hv r hr),
+        guardNaN_false, hp]
+    · have := (validPropagate_parts f hv).2.2 r hr
+      simp [nodeInUniverse, this, us]
   | .call d op u s ps, hw => by
     simp only [WF2] at hw
     obtain ⟨hmem, hs, hps, hnone⟩ := hw
-    obtain ⟨ns, bs, es⟩ := build_eval2 f hv hc ops s hs
-    obtain ⟨nps, bps, eps⟩ := builds_eval2 f hv hc ops ps hps
+    obtain ⟨ns, bs, es, us⟩ := build_eval2_universe f hv hc ops s hs
+    obtain ⟨nps, bps, eps, ups⟩ := builds_eval2_universe f hv hc ops ps hps
     obtain ⟨r, hf, hop, hdef, hu⟩ := builtin_row f hv d op 0 u hmem
-    refine ⟨.call r.op r.defaultParams ns (if r.passesUserParams then nps else []), by simp [build2, hf, bs, bps], ?_⟩
-    cases u with
-    | true =>
-      simp only [hu, if_true, evalNode2, hdef, es, eps, evalDirect2, hop]
-    | false =>
-      have : ps = [] := hnone rfl
-      subst this
-      simp [hu, evalNode2, hdef, es, evalDirect2, evalNodes2, evalDirects2, hop]
+    refine ⟨.call r.op r.defaultParams ns (if r.passesUserParams then nps else []), by simp [build2, hf, bs, bps], ?_, ?_⟩
+    · cases u with
+      | true =>
+        simp only [hu, if_true, evalNode2, hdef, es, eps, evalDirect2, hop]
+      | false =>
+        have : ps = [] := hnone rfl
+        subst this
+        simp [hu, evalNode2, hdef, es, evalDirect2, evalNodes2, evalDirects2, hop]
+    · cases hpu : r.passesUserParams <;> simp [nodeInUniverse, nodesInUniverse, us, ups]
   | .iopVal d p old v, hw => by
     simp only [WF2] at hw
     obtain ⟨r, cn, hf, hp, hvp, _, _⟩ := inplace_row f hv d p hw
-    exact ⟨.imm p old v, by simp [build2, hf, iopValNode, hp, hvp], by simp [evalNode2, evalDirect2]⟩
+    exact ⟨.imm p old v, by simp [build2, hf, iopValNode, hp, hvp], by simp [evalNode2, evalDirect2], rfl⟩
   | .iopExpr d p o v, hw => by
     simp only [WF2] at hw
     obtain ⟨hmem, ho, hw'⟩ := hw
-    obtain ⟨no, bo, eo⟩ := build_eval2 f hv hc ops o ho
-    obtain ⟨nv, bv, ev⟩ := build_eval2 f hv hc ops v hw'
+    obtain ⟨no, bo, eo, uo⟩ := build_eval2_universe f hv hc ops o ho
+    obtain ⟨nv, bv, ev, uv⟩ := build_eval2_universe f hv hc ops v hw'
     obtain ⟨r, cn, c, hf, hp, _, hec, hfc, hprim, hsw, hguard⟩ := inplace_class f hv hc d p hmem
-    refine ⟨.bin cn no nv, by simp [build2, hf, bo, bv, iopExprNode, hp, hec], ?_⟩
-    simp only [evalNode2, hfc, eo, ev, evalDirect2, classRes_eq f hv, hprim, hguard, hsw]
-    simp
-theorem builds_eval2 (f : Full) (hv : f.ValidOps = true) (hc : f.Coherent = true) (ops : PyOps2 V) :
+    obtain ⟨hbc, hpc⟩ := binClass_of_find f hv cn c hfc
+    refine ⟨.bin cn no nv, by simp [build2, hf, bo, bv, iopExprNode, hp, hec], ?_, ?_⟩
+    · simp only [evalNode2, hfc, eo, ev, evalDirect2, classRes_eq f hv ops cn hpc, hprim, hguard, hsw]
+      simp
+    · simp [nodeInUniverse, hbc, uo, uv]
+theorem builds_eval2_universe (f : Full) (hv : f.ValidOps = true) (hc : f.Coherent = true) (ops : PyOps2 V) :
     ∀ ts : List (Term2 V), WFs2 ts →
-      ∃ nodes, builds2 f ts = some nodes ∧ evalNodes2 f ops nodes = evalDirects2 ops ts
-  | [], _ => ⟨[], by simp [builds2], by simp [evalNodes2, evalDirects2]⟩
+      ∃ nodes, builds2 f ts = some nodes ∧ evalNodes2 f ops nodes = evalDirects2 ops ts ∧
+        nodesInUniverse nodes = true
+  | [], _ => ⟨[], by simp [builds2], by simp [evalNodes2, evalDirects2], rfl⟩
   | t :: ts, hw => by
     simp only [WFs2] at hw
-    obtain ⟨n, bn, en⟩ := build_eval2 f hv hc ops t hw.1
-    obtain ⟨ns, bns, ens⟩ := builds_eval2 f hv hc ops ts hw.2
-    exact ⟨n :: ns, by simp [builds2, bn, bns], by simp only [evalNodes2, evalDirects2, en, ens]⟩
+    obtain ⟨n, bn, en, un⟩ := build_eval2_universe f hv hc ops t hw.1
+    obtain ⟨ns, bns, ens, uns⟩ := builds_eval2_universe f hv hc ops ts hw.2
+    exact ⟨n :: ns, by simp [builds2, bn, bns], by simp only [evalNodes2, evalDirects2, en, ens],
+      by simp [nodesInUniverse, un, uns]⟩
 end
+
+/-- C04 (all operators): validity and coherence of the extracted tables lift to every term. -/
+theorem build_eval2 (f : Full) (hv : f.ValidOps = true) (hc : f.Coherent = true) (ops : PyOps2 V)
+    (t : Term2 V) (hw : WF2 t) :
+    ∃ node, build2 f t = some node ∧ evalNode2 f ops node = evalDirect2 ops t := by
+  obtain ⟨node, hb, he, _⟩ := build_eval2_universe f hv hc ops t hw
+  exact ⟨node, hb, he⟩
+
+theorem builds_eval2 (f : Full) (hv : f.ValidOps = true) (hc : f.Coherent = true) (ops : PyOps2 V)
+    (ts : List (Term2 V)) (hw : WFs2 ts) :
+    ∃ nodes, builds2 f ts = some nodes ∧ evalNodes2 f ops nodes = evalDirects2 ops ts := by
+  obtain ⟨nodes, hb, he, _⟩ := builds_eval2_universe f hv hc ops ts hw
+  exact ⟨nodes, hb, he⟩
 
 /-! ### the binary fragment of `XModel/Tables.lean` is a sub-language -/
 
@@ -464,8 +597,8 @@ theorem evalDirect2_up (ops : PyOps2 V) : ∀ t : Term V, evalDirect2 ops (up t)
 
 /-! ### completeness: a valid table lists every dunder of the specification
 
-`ValidOps` is defined as "for every row of the four specification lists, the table's row agrees", and a
-missing row makes `rowOk` / `unaryOk` / `builtinOk` / `inplaceOk` false: so completeness is immediate.
+`ValidOpRows` (the first half of `ValidOps`) is defined as "for every row of the four specification
+lists, the table's row agrees", and a missing row makes `rowOk` / `unaryOk` / `builtinOk` / `inplaceOk` false: so completeness is immediate.
 It is stated here anyway, with the rows as members of the table's lists. -/
 
 theorem table_complete (f : Full) (hv : f.ValidOps = true) :
@@ -500,7 +633,9 @@ theorem table_complete (f : Full) (hv : f.ValidOps = true) :
 /-! ### examples: a hand-written table with every row of the specification -/
 
 /-- `Tables.pinned` (the 18 dunders / 11 classes of the binary fragment) completed by hand with the
-    bitwise / shift / matmul rows and one list of each other kind -/
+    bitwise / shift / matmul rows and one list of each other kind; `propagate`, `deps` and `reduce` have
+    one all-true row for every pair / class that the universe-closed tests ask for (what the translator
+    emits for a tree without defects) -/
 def sample : Full :=
   { bin :=
       { classes := Tables.pinned.classes ++
@@ -514,7 +649,7 @@ def sample : Full :=
            ⟨"__xor__", "XorExpr", .selfLhs⟩, ⟨"__rxor__", "XorExpr", .selfRhs⟩,
            ⟨"__rshift__", "RshiftExpr", .selfLhs⟩, ⟨"__rrshift__", "RshiftExpr", .selfRhs⟩,
            ⟨"__lshift__", "LshiftExpr", .selfLhs⟩, ⟨"__rlshift__", "LshiftExpr", .selfRhs⟩] },
-    propagate := [⟨"AddExpr", "OverflowError", true⟩, ⟨"NegExpr", "TypeError", true⟩],
+    propagate := propClasses.flatMap (fun c => probedExcs.map (fun e => ⟨c, e, true⟩)),
     unary := [⟨"__neg__", "NegExpr", .neg⟩, ⟨"__pos__", "PosExpr", .pos⟩, ⟨"__invert__", "InvertExpr", .invert⟩],
     builtin := [⟨"__abs__", "abs", 0, false⟩, ⟨"__round__", "round", 0, true⟩, ⟨"__divmod__", "divmod", 0, true⟩,
                 ⟨"__trunc__", "math.trunc", 0, false⟩, ⟨"__floor__", "math.floor", 0, false⟩,
@@ -527,11 +662,44 @@ def sample : Full :=
                 ⟨"__ilshift__", true, some .lshift, some "LshiftExpr"⟩, ⟨"__irshift__", true, some .rshift, some "RshiftExpr"⟩,
                 ⟨"__iand__", true, some .and_, some "BitwiseAndExpr"⟩, ⟨"__ixor__", true, some .xor, some "XorExpr"⟩,
                 ⟨"__ior__", true, some .or_, some "BitwiseOrExpr"⟩],
-    deps := [⟨"AddExpr", "lhs", true, true⟩],
-    reduce := [⟨"AddExpr", true, true, true⟩] }
+    deps := classSlots.flatMap (fun cs => cs.2.map (fun sl => ⟨cs.1, sl, true, true⟩)) ++
+            leafClasses.map (fun c => ⟨c, "none", true, true⟩),
+    reduce := (classSlots.map (·.1) ++ refClasses).map (fun c => ⟨c, true, true, true⟩) }
 
 theorem sample_valid : sample.ValidOps = true := by decide
 theorem sample_coherent : sample.Coherent = true := by decide
+theorem sample_valid_deps : sample.ValidDeps = true := by decide
+theorem sample_valid_reduce : sample.ValidReduce = true := by decide
+example : sample.Valid = true := by decide
+example : sample.propagate.length = 110 ∧ sample.deps.length = 51 ∧ sample.reduce.length = 29 := by decide
+
+/-! ### the universe-closed tests reject the degenerate tables of the review
+
+Each of the three tables below passed the earlier tests (listed rows all true, list non-empty). -/
+
+/-- one arbitrary propagate row, about a class that does not exist -/
+def unprobedTable : Full := { sample with propagate := [⟨"NoSuchClass", "Whatever", true⟩] }
+example : unprobedTable.ValidOps = false := by decide
+example : unprobedTable.ValidOpRows = true ∧ unprobedTable.Coherent = true := by decide
+/-- two genuine rows (the former hand-written sample) are not enough either -/
+example : ({ sample with propagate := [⟨"AddExpr", "OverflowError", true⟩, ⟨"NegExpr", "TypeError", true⟩] } : Full).ValidOps
+    = false := by decide
+/-- all rows but one: `ModExpr` was not probed with `ValueError` -/
+example : ({ sample with propagate := sample.propagate.filter (fun r => !(r.cls = "ModExpr" && r.exc = "ValueError")) } : Full).ValidOps
+    = false := by decide
+/-- a class outside the universe among the operator rows -/
+example : ({ sample with bin := { sample.bin with classes := sample.bin.classes ++ [⟨"FancyExpr", .add, false, false⟩] } } : Full).ValidOps
+    = false := by decide
+/-- one-row `deps`: the reviewer's table -/
+example : ({ sample with deps := [⟨"AddExpr", "lhs", true, true⟩] } : Full).ValidDeps = false := by decide
+/-- all binary and unary classes, nothing about calls / items / attributes -/
+example : ({ sample with deps := sample.deps.filter (fun r => r.cls != "CallRef") } : Full).ValidDeps = false := by decide
+/-- a slot that is listed but not visited (the shape of D6) -/
+example : ({ sample with deps := sample.deps.map (fun r => if r.cls = "BuiltinRef" && r.slot = "param" then { r with covered := false } else r) } : Full).ValidDeps
+    = false := by decide
+/-- one-row `reduce` -/
+example : ({ sample with reduce := [⟨"AddExpr", true, true, true⟩] } : Full).ValidReduce = false := by decide
+example : ({ sample with reduce := sample.reduce.filter (fun r => r.cls != "ItemRef") } : Full).ValidReduce = false := by decide
 
 /-- a toy value algebra on the integers: `-999` plays NaN, errors are exception class names -/
 def intOps : PyOps2 Int :=
@@ -594,33 +762,42 @@ example : evalDirect2 intOps sampleIopVal = .error "ZeroDivisionError" := rfl
 
 /-! ### `Coherent` is needed: two tables with `ValidOps = true` for which the lift fails -/
 
-/-- `__neg__` and `__pos__` both build class "X"; one row says X negates, the other that X does nothing.
-    Every check of `ValidOps` looks at one row only and passes. -/
+/-- `__neg__` and `__pos__` both build class `NegExpr`; one row says it negates, the other that it does
+    nothing.  Every check of `ValidOps` looks at one row only and passes. -/
 def incoherentUnary : Full :=
-  { sample with unary := [⟨"__neg__", "X", .neg⟩, ⟨"__pos__", "X", .pos⟩, ⟨"__invert__", "InvertExpr", .invert⟩] }
+  { sample with unary := [⟨"__neg__", "NegExpr", .neg⟩, ⟨"__pos__", "NegExpr", .pos⟩, ⟨"__invert__", "InvertExpr", .invert⟩] }
 example : incoherentUnary.ValidOps = true := by decide
 example : incoherentUnary.Coherent = false := by decide
 example : WF2 (Term2.un "__pos__" .pos (.val (5 : Int))) := by simp [WF2, unarySpec]
-/-- `+5`: the node is of class X, which (first row) negates -/
+/-- `+5`: the node is of class `NegExpr`, which (first row) negates -/
 example : (build2 incoherentUnary (Term2.un "__pos__" .pos (.val 5))).map (evalNode2 incoherentUnary intOps)
     = some (.ok (-5)) := rfl
 example : evalDirect2 intOps (Term2.un "__pos__" .pos (.val 5)) = .ok 5 := rfl
 
-/-- a second, unguarded true-division class stands before the guarded one: `__truediv__` builds the
+/-- a second, unguarded true-division class stands before the guarded one (`EqExpr`, a class of the
+    universe that no dunder of the specification builds, is given that role): `__truediv__` builds the
     guarded class, `classOfPrim` (first unswapped class of the primitive) finds the unguarded one, and the
     in-place row naming it passes `inplaceOk` -/
 def incoherentInplace : Full :=
   { sample with
-    bin := { sample.bin with classes := ⟨"RawDivExpr", .truediv, false, false⟩ :: sample.bin.classes },
-    inplace := sample.inplace.map (fun r => if r.dunder = "__itruediv__" then { r with exprCls := some "RawDivExpr" } else r) }
+    bin := { sample.bin with classes := ⟨"EqExpr", .truediv, false, false⟩ :: sample.bin.classes },
+    inplace := sample.inplace.map (fun r => if r.dunder = "__itruediv__" then { r with exprCls := some "EqExpr" } else r) }
 example : incoherentInplace.ValidOps = true := by decide
 example : incoherentInplace.Coherent = false := by decide
 /-- `x /= 0` in the expression case raises instead of giving NaN -/
 example : (build2 incoherentInplace sampleIop).map (evalNode2 incoherentInplace intOps)
     = some (.error "ZeroDivisionError") := rfl
 
-/-- the `propagate` conjunct is used too: with a row recording that `MatmulExpr` swallowed `TypeError`, the
-    table is invalid, and the node returns NaN where Python raises -/
+/-- the `propagate` conjunct is needed, closed over the universe: for the table with one arbitrary
+    propagate row every operator row is valid, yet nothing is known about `MatmulExpr`: the node semantics
+    (fail-closed) gives NaN where Python raises.  With `sample`'s rows the same term raises. -/
+example : (build2 unprobedTable (Term2.op "__matmul__" ⟨.matmul, true⟩ (.val (1 : Int)) (.val 2))).map
+    (evalNode2 unprobedTable intOps) = some (.ok (-999)) := rfl
+example : (build2 sample (Term2.op "__matmul__" ⟨.matmul, true⟩ (.val (1 : Int)) (.val 2))).map
+    (evalNode2 sample intOps) = some (.error "TypeError") := rfl
+
+/-- and with a row recording that `MatmulExpr` swallowed `TypeError`, the table is invalid, and the node
+    returns NaN where Python raises -/
 def swallowing : Full := { sample with propagate := ⟨"MatmulExpr", "TypeError", false⟩ :: sample.propagate }
 example : swallowing.ValidOps = false := by decide
 example : (build2 swallowing (Term2.op "__matmul__" ⟨.matmul, true⟩ (.val (1 : Int)) (.val 2))).map
@@ -686,6 +863,23 @@ theorem changed_location_reported (rows : List DepRow) (I : DSem V) (n : DNode)
     have : id ≠ k := fun e => hk (e ▸ hid)
     simp [this]
 
+/-! #### over the class universe: the hypothesis is on the tree, the table only has to be valid -/
+
+/-- C05 for a valid table: for every tree of the universe (`InUniverse n`: a property of the tree,
+    decidable without the table), two environments that agree on the reported dependencies give the same
+    value.  `ValidDeps` is what makes the reported dependencies contain every leaf
+    (`wellSlotted_of_valid`); it is needed: `depRowsD6` below. -/
+theorem value_depends_only_on_reported_universe (f : Full) (hv : f.ValidDeps = true) (I : DSem V) (n : DNode)
+    (hu : InUniverse n = true) (e1 e2 : Nat → V) (h : ∀ id ∈ depsOf f.deps n, e1 id = e2 id) :
+    evalD I e1 n = evalD I e2 n :=
+  value_depends_only_on_reported f.deps I n (wellSlotted_of_valid f hv n hu) e1 e2 h
+
+/-- C05 as worded, for a valid table and every tree of the universe -/
+theorem changed_location_reported_universe (f : Full) (hv : f.ValidDeps = true) (I : DSem V) (n : DNode)
+    (hu : InUniverse n = true) (env : Nat → V) (k : Nat) (v : V)
+    (hne : evalD I (fun i => if i = k then v else env i) n ≠ evalD I env n) : k ∈ depsOf f.deps n :=
+  changed_location_reported f.deps I n (wellSlotted_of_valid f hv n hu) env k v hne
+
 /-- the classes add up their slots -/
 def sumSem : DSem Int := { lit := 0, cls := fun _ vs => (vs.map (·.2)).foldl (· + ·) 0 }
 
@@ -702,5 +896,32 @@ example : wellSlotted depRowsD6 depNode = false := by decide
 example : depsOf depRowsD6 depNode = [1] := by decide
 example : evalD sumSem (fun i => if i = 2 then 10 else 1) depNode ≠ evalD sumSem (fun _ => 1) depNode ∧
     ∀ id ∈ depsOf depRowsD6 depNode, (fun i => if i = 2 then (10 : Int) else 1) id = (fun _ => 1) id := by decide
+
+
+/-- a tree of the universe using calls with several positional and keyword arguments, a subscript with a
+    computed key, an attribute, a builtin with a parameter and a literal node:
+    `f(a[b], -c, k = round(d.x, e)) + 1`, refs a … f numbered 1 … 6 -/
+def universeNode : DNode :=
+  .node "AddExpr"
+    [("lhs", .node "CallRef"
+        [("func", .ref 6),
+         ("arg", .node "ItemRef" [("owner", .ref 1), ("key", .ref 2)]),
+         ("arg", .node "NegExpr" [("arg", .ref 3)]),
+         ("kwarg", .node "BuiltinRef" [("arg", .node "AttrRef" [("owner", .ref 4), ("key", .lit)]), ("param", .ref 5)])]),
+     ("rhs", .node "LiteralExpr" [])]
+example : InUniverse universeNode = true := by decide
+example : InUniverse depNode = true := by decide
+/-- the hypotheses of the universe theorems are satisfiable: `sample` is valid, the tree is in the universe -/
+example : depsOf sample.deps universeNode = leafs universeNode :=
+  deps_exact_universe sample sample_valid_deps universeNode (by decide)
+example : depsOf sample.deps universeNode = [6, 1, 2, 3, 4, 5] := by decide
+example : evalD sumSem (fun i => if i = 2 then 10 else 1) universeNode ≠ evalD sumSem (fun _ => 1) universeNode ∧
+    2 ∈ depsOf sample.deps universeNode := by decide
+/-- the reviewer's point: with the one-row table `wellSlotted` fails for `a + b`, so the earlier theorem
+    applied to no such tree; the strengthened test rejects that table (above) -/
+example : wellSlotted [⟨"AddExpr", "lhs", true, true⟩] (.node "AddExpr" [("lhs", .ref 1), ("rhs", .ref 2)]) = false := by decide
+/-- trees outside the universe: an unknown class, an undeclared slot -/
+example : InUniverse (.node "FancyExpr" [("lhs", .ref 1)]) = false := by decide
+example : InUniverse (.node "AddExpr" [("lhs", .ref 1), ("middle", .ref 2)]) = false := by decide
 
 end RefsLift
